@@ -68,6 +68,9 @@ pub fn gen_history(rng: &mut Rng) -> (CtxSpec, Vec<String>) {
         // memo shared between executions must be keyed by everything that determines the answer)
         "int('42')", "double('42')", "uint('42')", "double('42') / 4.0", "int('42') / 4", "uint('42') + 1u", "string(42) + s", "bytes('42')", "int('7') + n", "double('7') + 0.5",
         "duration('42s')", "duration('42m')", "string(duration('42s'))", "timestamp('2023-01-01T00:00:00Z')", "string(timestamp('2023-01-01T00:00:00Z'))", "timestamp('2023-01-01T00:00:00Z').getFullYear()", "[int('42'), double('42')]",
+        // fields named like built-in functions, selected (not called) on maps that lack them, next to
+        // calls of those functions: what a selection yields does not depend on what ran before
+        "req.size", "req.auth.contains", "[req.size, size(xs)]", "has(req.size)", "[req.matches, req.auth.startsWith]", "req.meta.string", "size(xs) + size(ys)", "xs.contains(n)",
         // a name that is a macro variable in one place and the scope's own variable in another
         "k + 1", "[1, 2].map(k, k * 2) + [k]", "xs.map(x, x + k)", "[5].exists(k, k > 2) ? k : 0 - k", "[k, k + 1].filter(k, k > 3) + [k]", "xs.all(k, k >= 0) && k >= 0",
     ];
